@@ -307,7 +307,18 @@ def h_copyback(stage):
             old.append(b)
         st = integer('stage') if stage == 'sym' else stage
         iter_name = ast.unparse(loops[0].iter).split('zip(new_src,')[1].strip(' )')
-        exec(code, slicer.module_env(F, dict(core.BUILTINS, flags=flags)), {'new_src': new, iter_name: old, 'stage': st})
+        stale = R()                      # any other name the loop might read (e.g. a variable left over from an earlier loop)
+        stale.uuid, stale.flags = 'stale', 0
+        for nm in ('err_ra', 'err_dec', 'err_a', 'err_b', 'err_pa'):
+            setattr(stale, nm, ('stale', nm))
+
+        class Env(dict):
+            def __missing__(self, key):
+                if key in ('src', 'source', 'component', 'comp', 'isle_src'):
+                    return stale
+                raise KeyError(key)
+        loc = Env({'new_src': new, iter_name: old, 'stage': st})
+        exec(code, slicer.module_env(F, dict(core.BUILTINS, flags=flags)), loc)
         stv = core.lift(st)
         cl = []
         for k in range(3):
@@ -550,12 +561,24 @@ def oracle_blend():
                 s.peak_flux = 10.0 + 3 * k
                 s.island, s.source, s.uuid = 0, k, 'b%d' % k
                 s.psf_a, s.psf_b, s.psf_pa = 40.0, 40.0, 0.0
-                s.err_ra = s.err_dec = s.err_a = s.err_b = s.err_pa = 0.01
+                s.err_ra, s.err_dec, s.err_a, s.err_b, s.err_pa = 0.01 + 0.001 * k, 0.02 + 0.001 * k, 1.0 + k, 0.5 + k, 3.0 + k      # every member its own
                 s.local_rms = 0.05
                 _, _, fx, fy, th = helper.sky2pix_ellipse((s.ra, s.dec), s.a / 3600, s.b / 3600, s.pa)
                 from checks import C14
                 img += C14.gauss_oracle((N, M), r0, c0, fx, fy, th, s.peak_flux)
                 cat.append(s)
+            # an isolated source of another island, listed BETWEEN the members of the blend (row order must not matter)
+            far = models.ComponentSource()
+            fr, fc = (8.3, 8.4) if layout == 'east-west' else (50.2, 10.3)
+            far.ra, far.dec = helper.pix2sky((fr + 1, fc + 1))
+            far.a, far.b, far.pa, far.peak_flux = 55.0, 45.0, 10.0, 7.0
+            far.island, far.source, far.uuid = 1, 0, 'far'
+            far.psf_a, far.psf_b, far.psf_pa = 40.0, 40.0, 0.0
+            far.err_ra = far.err_dec = far.err_a = far.err_b = far.err_pa = 0.5
+            far.local_rms = 0.05
+            _, _, fx, fy, th = helper.sky2pix_ellipse((far.ra, far.dec), far.a / 3600, far.b / 3600, far.pa)
+            img += C14.gauss_oracle((N, M), fr, fc, fx, fy, th, far.peak_flux)
+            cat.insert(1, far)
             fn = os.path.join(d, layout + '.fits')
             fits.PrimaryHDU(img, header=hdr).writeto(fn, overwrite=True)
             f = sfm.SourceFinder(log=logging.getLogger('c05'))
@@ -564,7 +587,9 @@ def oracle_blend():
             for s in cat:
                 p = by.get(s.uuid)
                 if p is None or not (p.peak_flux == p.peak_flux) or abs(p.peak_flux / s.peak_flux - 1) > 1e-3:
-                    return True, 'blend-flux', '%s blend of three sources 9 px apart (one island): source %s peak %.4f comes back as %s' % (layout, s.uuid, s.peak_flux, 'missing' if p is None else '%.4f' % p.peak_flux)
+                    return True, 'blend-flux', '%s blend of three sources 9 px apart (one island, a foreign row listed between its members): source %s peak %.4f comes back as %s' % (layout, s.uuid, s.peak_flux, 'missing' if p is None else '%.4f' % p.peak_flux)
+                if (p.err_a, p.err_b, p.err_pa, p.err_ra, p.err_dec) != (s.err_a, s.err_b, s.err_pa, s.err_ra, s.err_dec):
+                    return True, 'blend-errors', '%s blend, stage 1: source %s comes back with (err_a, err_b, err_pa, err_ra, err_dec) = %s, its input values are %s' % (layout, s.uuid, (p.err_a, p.err_b, p.err_pa, p.err_ra, p.err_dec), (s.err_a, s.err_b, s.err_pa, s.err_ra, s.err_dec))
         return False, None, None
     except Exception as e:
         return True, 'raises-%s' % type(e).__name__, repr(e)[:300]
